@@ -727,6 +727,16 @@ func TestC16_ClonedConfigs(t *testing.T) {
 				lastRotated = i
 				hist = append(hist, fmt.Sprintf("rotate(cfg%d,%d keys)", i, len(nk)))
 			},
+			"retire": func(t *rapid.T) {
+				// the primary key stays, the oldest decrypt-only key goes
+				i := rapid.IntRange(0, len(cfgs)-1).Draw(t, "cfg")
+				if len(keys[i]) < 2 {
+					t.Skip("nothing to retire")
+				}
+				keys[i] = append([][32]byte{}, keys[i][:len(keys[i])-1]...)
+				cfgs[i].SetSessionTicketKeys(keys[i])
+				hist = append(hist, fmt.Sprintf("retire(cfg%d,%d keys left)", i, len(keys[i])))
+			},
 			"clone": func(t *rapid.T) {
 				if len(cfgs) >= 4 {
 					t.Skip("enough objects")
